@@ -616,7 +616,10 @@ Proof.
     destruct (in_strset _ GenText.meta_formats) as [fok|]; [|inversion H; reflexivity].
     destruct (negb fok); [inversion H; reflexivity|].
     unfold bindM at 1, lift at 1 in H.
-    destruct (json_dump j); [|inversion H; reflexivity]. eapply new_content_stack; eauto.
+    destruct (json_dump j); [|inversion H; reflexivity].
+    unfold bindM at 1, get_state at 1 in H. cbv beta iota in H. unfold bindM at 1, lift at 1 in H.
+    destruct (if wv_truthy encoding then _ else _) as [has_enc|]; [|inversion H; reflexivity].
+    eapply new_content_stack; eauto.
   - destruct content; try (inversion H; reflexivity).
     unfold bindM at 1, lift at 1 in H.
     destruct (match diff_type with WNone => Ok true | _ => in_strset diff_type GenText.diff_types end) as [tok|];
@@ -707,7 +710,15 @@ Proof.
     destruct (in_strset _ GenText.meta_formats) as [fok|]; [|cbn; auto].
     destruct (negb fok); [cbn; auto|].
     unfold bindM, lift.
-    destruct (json_dump j); [|cbn; auto]. apply new_content_section_depends; auto.
+    destruct (json_dump j); [|cbn; auto].
+    (* write_meta's test "is an encoding in force?" reads the top of the stack only *)
+    assert (Hce : cur_encoding s1 = cur_encoding s2).
+    { specialize (Hh eq_refl). unfold cur_encoding.
+      destruct (w_stack s1), (w_stack s2); cbn in Hh; try discriminate; [reflexivity|].
+      inversion Hh; reflexivity. }
+    unfold get_state. cbv beta iota. rewrite Hce.
+    destruct (if wv_truthy encoding then _ else _) as [has_enc|]; [|cbn; auto].
+    apply new_content_section_depends; auto.
   - destruct content; try solve [cbn; auto].
     unfold bindM, lift.
     destruct (match diff_type with WNone => Ok true | _ => in_strset diff_type GenText.diff_types end) as [tok|];
@@ -1351,7 +1362,10 @@ Proof.
     destruct (in_strset _ GenText.meta_formats) as [fok|]; [|right; inversion H; eauto].
     destruct (negb fok); [right; inversion H; eauto|].
     unfold bindM at 1, lift at 1 in H.
-    destruct (json_dump j); [|right; inversion H; eauto]. eapply new_content_prev; eauto.
+    destruct (json_dump j); [|right; inversion H; eauto].
+    unfold bindM at 1, get_state at 1 in H. cbv beta iota in H. unfold bindM at 1, lift at 1 in H.
+    destruct (if wv_truthy encoding then _ else _) as [has_enc|]; [|right; inversion H; eauto].
+    eapply new_content_prev; eauto.
   - destruct content; try (right; inversion H; eauto; fail).
     unfold bindM at 1, lift at 1 in H.
     destruct (match diff_type with WNone => Ok true | _ => in_strset diff_type GenText.diff_types end) as [tok|];
